@@ -22,7 +22,9 @@ RULE = ('S1: every string over {(,),and,or,not,leaf}^<=n that the reference '
         'through from_dict, JSON text, YAML text and a policy file; S6 every '
         'rejected string of <=5 tokens as the check string of a registered '
         'default (plain, as the new and as the old side of a deprecated pair '
-        'merged with enforce_new_defaults off).  '
+        'merged with enforce_new_defaults off); S7 every ordered pair of '
+        'values (strings, lists, and strings that print like lists) in one '
+        'document: each rule decides as it does alone.  '
         'Non-trivial = at least two tokens/characters or a container value.')
 ASSUMPTIONS = [
     'reference lexer/recogniser mc/ref/lang.py; tokens whose quote reading is '
@@ -114,6 +116,7 @@ def plan(tier, seed):
         jobs.append({'space': 'S5', 'shard': i, 'of': 8, 'weight': 20000})
     for i in range(16):
         jobs.append({'space': 'S6', 'shard': i, 'of': 16, 'weight': 30000})
+    jobs.append({'space': 'S7', 'weight': 5000})
     for j in jobs:
         j['tier'] = tier
     return jobs
@@ -514,6 +517,62 @@ def run_S6(cx, job):
                             got, 'S6')
             cx.acc.outcome('S6')
     cx.acc.sample('S6', text)
+
+
+# ---- S7 siblings ---------------------------------------------------------------
+
+S7_VALUES = ['', '@', '!', 'role:a', [], ['@'], [['role:a']],
+             [['role:a'], ['role:b', '@']], '[]', "['@']", "[['role:a']]",
+             "[['role:a'], ['role:b', '@']]", 'None', '()', '( @', '@ )',
+             'role:a role:a', '"@"', 'not', 'role:a or']
+
+
+def run_S7(cx, job):
+    """Whatever else a document holds, each of its rules decides as it does
+    when it is loaded on its own: every ordered pair of values from a menu
+    that mixes well-formed strings and lists with strings that merely LOOK
+    like them (the printed form of a list, a quoted constant...)."""
+    P = cx.policy
+    creds_list = [{}, {'roles': ['a']}, {'roles': ['a', 'b'], 'is_admin': True}]
+
+    def vec(loader, name):
+        rules = loader()
+        cx.enf.set_rules(rules, use_conf=False)
+        out = []
+        for c in creds_list:
+            cx.acc.ev()
+            out.append(world.decide(cx.enf, name, {}, dict(c)))
+        return out
+    alone = {}
+    for i, v in enumerate(S7_VALUES):
+        alone[i] = vec(lambda: P.Rules.from_dict({'p': v}), 'p')
+    for (i, v1), (j, v2) in itertools.product(enumerate(S7_VALUES), repeat=2):
+        for route in ('from_dict', 'json', 'yaml'):
+            for order in ((('a', v1), ('p', v2)), (('p', v2), ('a', v1))):
+                doc = dict(order)
+                if route == 'from_dict':
+                    loader = lambda: P.Rules.from_dict(doc)      # noqa: E731
+                elif route == 'json':
+                    loader = lambda: P.Rules.load(json.dumps(doc))  # noqa
+                else:
+                    import yaml
+                    loader = lambda: P.Rules.load(       # noqa: E731
+                        yaml.safe_dump(doc, sort_keys=False))
+                cx.acc.case('S7', True)
+                try:
+                    got = vec(loader, 'p')
+                except Exception as e:
+                    got = 'raises %s' % type(e).__name__
+                if got != alone[j]:
+                    cx.acc.violation(
+                        'S7|%s|%s-next-to-%s' % (
+                            route, 'str' if isinstance(v2, str) else 'list',
+                            'str' if isinstance(v1, str) else 'list'),
+                        'rule %r decides %r next to the sibling %r, but %r '
+                        'when loaded alone' % (v2, got, v1, alone[j]),
+                        {'doc': doc, 'route': route}, alone[j], got, 'S7')
+                cx.acc.outcome('S7-%s' % (alone[j][0],))
+    cx.acc.sample('S7', {'values': [repr(v) for v in S7_VALUES[:6]]})
 
 
 # ---- S5 non-rule values ------------------------------------------------------------
